@@ -218,13 +218,11 @@ theorem C16_example_supplies_inputs (schemas : SchemaTable) (cfg : Cfg) (op : Op
     subst h
     simp only
     have hval : ∀ (l : List Param) (r : List (Text × Ex)),
-        mapE (fun p : Param => match liftXP (sanitize p.name), toRustExampleValue schemas p.ty p.name with
-          | .ok i, .ok v => (.ok (i, v) : Except ExX (Text × Ex))
-          | .error x, _ => .error x
-          | _, .error x => .error x) l = .ok r → r.map (·.1) = l.map identOf := by
+        mapE (exampleDecl schemas) l = .ok r → r.map (·.1) = l.map identOf := by
       intro l r hm
       refine mapE_ok_map _ _ _ _ _ hm (fun a b _ hb => ?_)
       unfold identOf
+      unfold exampleDecl at hb
       split at hb
       · rename_i i v hi _
         simp at hb; subst hb
